@@ -34,6 +34,8 @@ def run(ctx, rep):
     AR.check_frame_api(fx, rep, "C03.api")
     AR.check_mapper_constructors(fx, rep, "C03.0")
     AR.check_mapping_wiring(fx, rep, "C03.api")
+    import parser_rules as PRM
+    PRM.check_parser_premises(fx, rep, "C03.P")
     R1.check_remap_frame_mapper(fx, rep, "C03.4")
     LR.check_frame_comparators(fx, rep, "C03.4")
     LR.check_section_slices(fx, rep, "C03.4")
